@@ -85,6 +85,10 @@ func pipelineTier2Real(req *pbssinternal.ProcessRangeRequest) result {
 	}
 	_ = execGraph.ModuleHashes().Get(req.OutputModule)
 	stageNow = "upto"
+	// processRange (fix 84ed6b1e): the stage number is checked before it indexes the stages
+	if stages := len(execGraph.StagedUsedModules()); int(req.Stage) >= stages {
+		return result{class: "error", stage: "upto", detail: "invalid stage", code: "invalid_argument"}
+	}
 	upto := execGraph.UsedModulesUpToStage(int(req.Stage))
 	_ = execGraph.UsedIndexesModulesUpToStage(int(req.Stage))
 	var st []string
@@ -188,27 +192,27 @@ func runT2Line(line string, tags []string) {
 		r = result{class: "hang", stage: stageNow, detail: "no answer within 2s"}
 	}
 	// What follows validation and graph construction in processRange is judged on the real processRange
-	// (exported TestProcessRange).  When the direct call of UsedModulesUpToStage panics, the answer recorded
-	// for the comparison with the model is what processRange itself does with the request: as long as it
-	// indexes the stages with an unchecked request.Stage this is the same panic; once it rejects the stage
-	// first, the answer becomes error@upto and the model has to follow.
+	// (exported TestProcessRange).  For a stage number beyond the graph's stages the answer recorded for the
+	// comparison with the model is what processRange itself does with the request: an error since 84ed6b1e;
+	// should it index the stages with an unchecked request.Stage again, the answer becomes panic@upto (a
+	// disagreement with the model) and the oracle reports C17/panic/tier2-processRange/index-out-of-range.
 	// (A job of a later stage or segment waits, with retries, for store snapshots that the empty state store
-	// of the harness does not have: besides the panicking cases only first-segment, first-stage requests are
-	// sampled, and a time-out of processRange is counted, not judged.)
+	// of the harness does not have: besides the out-of-range cases only first-segment, first-stage requests
+	// are sampled, and a time-out of processRange is counted, not judged.)
 	special := len(tags) > 0 && (tags[0] == "replay" || tags[0] == "corpus")
 	passedValidation := !(r.class == "error" && r.stage == "validate")
-	uptoPanic := r.class == "panic" && r.stage == "upto"
-	if passedValidation && (uptoPanic || special || (out.N%2 == 0 && t.stage == 0 && t.segNum == 0)) {
+	stageOutOfRange := r.stage == "upto"
+	if passedValidation && (stageOutOfRange || special || (out.N%2 == 0 && t.stage == 0 && t.segNum == 0)) {
 		class, detail := processRangeReal(req)
 		out.Count("tier2-processRange:" + class)
 		if class == "panic" {
 			out.Fail("C17/panic/tier2-processRange/"+panicReason(detail), "Tier2Service.processRange: "+detail, line)
 		}
-		if uptoPanic && class == "error" {
-			r = result{class: "error", stage: "upto", detail: detail, code: "invalid_argument"}
+		if stageOutOfRange && class == "panic" {
+			r = result{class: "panic", stage: "upto", detail: detail}
 		}
-		if uptoPanic && class != "panic" && class != "error" {
-			out.Count("tier2-glue-drift:UsedModulesUpToStage-panics-but-processRange-" + class)
+		if stageOutOfRange && class != "panic" && class != "error" {
+			out.Count("tier2-glue-drift:stage-out-of-range-but-processRange-" + class)
 		}
 	}
 	if (r.class == "panic" || r.class == "hang") && r.stage != "upto" {
@@ -267,4 +271,17 @@ func emitT2(r *common.Rng, c *wCase, tag string) {
 		}
 	}
 	runT2Line(t.line(), []string{"tier2:" + tag})
+}
+
+// probeMetering records, as a remark, what dmetering.New does with a metering_config whose scheme has no
+// registered plugin: Tier2Service.ProcessRange passes request.MeteringConfig to it right after
+// ValidateTier2Request (which only checks that the string is not empty).  Not part of the oracle: the
+// handler itself cannot be called without a connect stream.
+func probeMetering() {
+	defer func() {
+		if r := recover(); r != nil {
+			out.Notes = append(out.Notes, fmt.Sprintf("remark (not an oracle failure): dmetering.New(%q) panics: %v -- Tier2Service.ProcessRange calls it with request.MeteringConfig, which ValidateTier2Request only checks for emptiness", "nosuchplugin://x", r))
+		}
+	}()
+	_, _ = dmetering.New("nosuchplugin://x", zap.NewNop())
 }
